@@ -8,6 +8,10 @@ claimed = {
    "Decides, exhaustively over the source, the structural necessary conditions of commit-frontier safety: single guarded input-notification site, constant-false notify flag at every non-acknowledging finalize call, acknowledgement sites, send-before-commit on all worker paths, the sequenced commit region (wait loop / +1 under lock / broadcast), retry-loop exits, detach guard, single sequencer. It does not decide that a concrete schedule respects the frontier."),
  "C02": ("who-may-call + typestate/CFG path rules + interprocedural lock-region dataflow over go/ssa", "§3 C02",
    "Decides structural necessary conditions of in-order exactly-once commits: single guarded attach site with pop-under-lock, the stream-queue lock table at every access, FIFO batch fill under the fill lock and ascending commit loop, exactly-one-finalize shape of every ActionResult case, hold<->propagate typestate, FIFO enqueue/dequeue shape, single sequencer. It does not decide the order or uniqueness of a concrete commit history."),
+ "C04": ("sync.Cond monitor-discipline and lock-region dataflow, guard-formula normalisation with sibling agreement, CFG path rules, call-graph reachability (CHA quick / VTA thorough)", "§3 C04",
+   "Decides structural necessary conditions of 'no wedge': monitor discipline of every lock-protected sync.Cond (wait loop; producer writes under the lock followed by Signal/Broadcast), heartbeat presence and polarity for both lock-free event pools with sibling agreement, charge/re-charge protocol, blocked-stream time-out machinery, flush heartbeat with age clause, worker never reaches the fill lock. It does not decide any bound on time."),
+ "C05": ("who-may-call on the unexported pool interface, must-pass-through CFG rules with consumption summaries, +1/0/-1 effect balance of the in-use counters", "§3 C05",
+   "Decides structural necessary conditions of capacity/conservation: who may get/back; every path of In after get streams the event or returns it (and never both); low-memory admission under Inc()<=capacity with undo before waiting; one Inc per get / one Dec per back and slot = counter mod capacity for the standard pool; finalizer returns only regular events when asked, once; every foreign Event literal is re-kinded. It does not decide the count under a concrete interleaving nor the slot CAS protocol."),
 }
 NA = {
  "C06": "the claim is an equation between runtime byte positions (offset = start + scanned) for every content, buffer size and append split; no sound static argument in reach bounds it, and the only structural proxies are matches on one loop's arithmetic (a frozen fragment)",
